@@ -48,7 +48,7 @@ pub fn build(draws: &[u16], tier: Tier) -> Case {
             let (ma, ca, ra) = phase(&mut s, 0, 1);
             let (mr, cr, rr) = phase(&mut s, 1, 2);
             let (mc, cc, _rc) = phase(&mut s, 2, 3);
-            let variant = s.pick(5);
+            let variant = s.pick(7);
             let mut main: Vec<Op> = vec![];
             let mut cfg_explicit = false;
             // region = which phase is not explored: 0 = R (middle), 1 = A, 2 = C via skip_branch, 3 = A via expect_explicit_explore, 4 = R..C via skip_branch
@@ -80,10 +80,28 @@ pub fn build(draws: &[u16], tier: Tier) -> Case {
                     main.extend(mr);
                     main.extend(mc);
                 }
-                _ => {
+                4 => {
                     main.extend(ma);
                     main.push(Op::SkipBranch);
                     main.extend(mr);
+                    main.extend(mc);
+                }
+                5 => {
+                    // a stop/explore region first, skip_branch later: the skip of one iteration must
+                    // not switch the controls off in the next iteration
+                    main.push(Op::StopExploring);
+                    main.extend(ma);
+                    main.push(Op::Explore);
+                    main.extend(mr);
+                    main.push(Op::SkipBranch);
+                    main.extend(mc);
+                }
+                _ => {
+                    cfg_explicit = true;
+                    main.extend(ma);
+                    main.push(Op::Explore);
+                    main.extend(mr);
+                    main.push(Op::SkipBranch);
                     main.extend(mc);
                 }
             }
@@ -169,6 +187,7 @@ pub fn build(draws: &[u16], tier: Tier) -> Case {
                 c.x.c = Some(s.range(1, 9) as i64);
             } else {
                 c.x.mode = Some("max_duration".into());
+                c.x.k = Some(s.pick(2) as i64); // 1 = max_permutations is set as well
                 c.x.n = Some(s.pick(2) as i64); // 0 = zero duration, 1 = one hour
                 c.x.c = Some(s.range(1, 9) as i64);
             }
@@ -272,7 +291,9 @@ pub fn eval(case: &Case) -> Verdict {
                     1 => vec![0],
                     2 => vec![2],
                     3 => vec![0],
-                    _ => vec![1, 2],
+                    4 => vec![1, 2],
+                    5 => vec![0, 2],
+                    _ => vec![0, 2],
                 };
                 for which in 0..3 {
                     let pr: BTreeSet<_> = lr.iter().map(|o| proj(o, which)).collect();
@@ -374,17 +395,19 @@ pub fn eval(case: &Case) -> Verdict {
             let (run, lo, hi, what) = if mode == "max_permutations" {
                 let pmax = case.x.n.unwrap_or(0).max(0) as usize;
                 cfg.max_permutations = Some(pmax);
-                let run = interp::collect(p, &cfg, false);
+                // (with a max_duration that is never reached: both limits together)
+                let run = interp::collect_with(p, &cfg, interp::RunOpts { max_duration: Some(std::time::Duration::from_secs(3600)), ..Default::default() }, false);
                 // stops at the first multiple m of c with m >= p: no later than that boundary
                 let m = c * ((pmax + c - 1) / c).max(1);
                 (run, n_total.min(pmax.saturating_sub(1)), n_total.min(m), format!("max_permutations={} checkpoint_interval={}", pmax, c))
             } else {
-                cfg.max_permutations = None;
+                // half of the cases also set a (never reached) max_permutations: both limits together
+                cfg.max_permutations = if case.x.k.unwrap_or(0) % 2 == 1 { Some(n_total + 100) } else { None };
                 let zero = case.x.n.unwrap_or(0) == 0;
                 let d = if zero { std::time::Duration::from_secs(0) } else { std::time::Duration::from_secs(3600) };
                 let run = interp::collect_with(p, &cfg, interp::RunOpts { max_duration: Some(d), ..Default::default() }, false);
                 if zero {
-                    (run, 0, n_total.min(c), format!("max_duration=0 checkpoint_interval={}", c))
+                    (run, 0, n_total.min(c), format!("max_duration=0 checkpoint_interval={} max_permutations={:?}", c, cfg.max_permutations))
                 } else {
                     (run, n_total, n_total, format!("max_duration=1h checkpoint_interval={}", c))
                 }
